@@ -31,9 +31,30 @@ RE_CHAR = re.compile(
     r"'(?>\\[\\\"rnt0']|\\x[0-9a-fA-F]{2}|\\u\{[0-9a-fA-F]{2,6}\}|(?s:.))'"
 )
 RE_LINE_COMMENT = re.compile(r"//(?!/|!).*")
-RE_BLOCK_COMMENT = re.compile(r"/\*(?:[^*/]|\*(?!/)|/(?!\*)|(?R))*\*/")
 
 ESCAPES = frozenset(["n", "r", "t", "u", "x", "\\", '"', "0", "'"])
+
+
+def block_comment_ends(text: str) -> list[int]:
+    """Return, for every index, where a block comment body read from there ends.
+
+    Block comments nest. As in pest's own grammar,
+
+        block_comment = _{ "/*" ~ (block_comment | !"*/" ~ ANY)* ~ "*/" }
+
+    a nested `/*` that is never closed is ordinary comment text. A comment
+    starting at index `i` ends at `ends[i + 2]`, the index just past its `*/`,
+    or it is not a comment if that is -1.
+    """
+    ends = [-1] * (len(text) + 3)
+    for i in range(len(text) - 2, -1, -1):
+        if text.startswith("*/", i):
+            ends[i] = i + 2
+        elif text.startswith("/*", i) and ends[i + 2] != -1:
+            ends[i] = ends[ends[i + 2]]
+        else:
+            ends[i] = ends[i + 1]
+    return ends
 
 
 def tokenize(grammar: str) -> list[Token]:
@@ -44,13 +65,14 @@ def tokenize(grammar: str) -> list[Token]:
 class Scanner:
     """pest grammar lexical scanner."""
 
-    __slots__ = ("tokens", "start", "pos", "grammar")
+    __slots__ = ("tokens", "start", "pos", "grammar", "block_comment_ends")
 
     def __init__(self, grammar: str) -> None:
         self.tokens: list[Token] = []
         self.start = 0
         self.pos = 0
         self.grammar = grammar
+        self.block_comment_ends: list[int] | None = None
 
         state: StateFn | None = self.scan_grammar
         while state is not None:
@@ -96,6 +118,21 @@ class Scanner:
             return True
         return False
 
+    def skip_block_comment(self) -> bool:
+        if not self.grammar.startswith("/*", self.pos):
+            return False
+
+        if self.block_comment_ends is None:
+            self.block_comment_ends = block_comment_ends(self.grammar)
+
+        end = self.block_comment_ends[self.pos + 2]
+        if end == -1:
+            return False
+
+        self.pos = end
+        self.start = self.pos
+        return True
+
     def skip_trivia(self) -> None:
         """Skip whitespace and/or comments."""
         while True:
@@ -103,7 +140,7 @@ class Scanner:
                 (
                     self.skip(RE_WHITESPACE),
                     self.skip(RE_LINE_COMMENT),
-                    self.skip(RE_BLOCK_COMMENT),
+                    self.skip_block_comment(),
                 )
             ):
                 break
